@@ -416,16 +416,16 @@ End RegE.
 
 (* ---------- the premise of c16_close_reported from the registration history ---------- *)
 Theorem p_close_reported_history c ops d desc be :
-  length c <= p_max_events -> p_no_target c d -> d < length c -> pc_conn (p_get c d) = true -> pc_doc (p_get c d) = false ->
+  p_refused c d = false -> length c <= p_max_events -> p_no_target c d -> d < length c -> pc_conn (p_get c d) = true -> pc_doc (p_get c d) = false ->
   let s := p_run be c ops in
   st_regr s d = true -> st_closed s d = true -> st_pend s d = [] -> st_onclose s d = true -> st_del s d = false ->
   p_closed_logged d (p_step c s (POPoll desc)).
 Proof.
-  intros LM G L CN DC s RG CL PD ON DL. destruct be.
+  intros NR LM G L CN DC s RG CL PD ON DL. destruct be.
   - destruct (p_we_run c ops) as (B & (W & T & D) & K). fold s in B, W, T, K.
     destruct (K d CN DC RG ON) as (id & M & ER).
     destruct (T d id M) as [T1 _]. specialize (T1 ER). rewrite CN in T1. destruct T1 as [T1 T2].
-    apply (p_ep_close_reported c ops d id desc LM G L). constructor; auto. repeat split; auto.
+    apply (p_ep_close_reported c ops d id desc NR LM G L). constructor; auto. repeat split; auto.
   - destruct (p_ws_run c ops) as [B W]. fold s in B, W.
     apply (p_sel_close_reported c d s desc G L). constructor; auto.
 Qed.
